@@ -51,6 +51,10 @@ def stories():
         # no scheduled reconnect to hide behind: only the ACK timeout ends a session with a silent upstream
         {"id": "silent-then-healthy-no-scheduled-reconnect", "maxDurationMs": 60000, "keys": 1, "memWindow": 0, "gens": [{"upstream": ["noAck", "healthy"], "clients": [c(25, 5, 35)], "stopAfterMs": 20, "drain": True}]},
         {"id": "late-and-silent-no-scheduled-reconnect", "maxDurationMs": 60000, "keys": 2, "memWindow": 0, "gens": [{"upstream": ["lateAck", "noAck", "resetAfter1", "noAck", "healthy"], "clients": [c(40, 4, 35), c(10, 5, 40)], "stopAfterMs": 20, "drain": True}]},
+        # the singleton orchestrator: one pipeline and one tag for the records of every app, one stream per connection
+        {"id": "singleton-faults-then-restart", "singleton": True, "keys": 3, "memWindow": 2, "chunkRecords": 5, "gens": [
+            {"upstream": ["resetAfter1", "noAck", "closeNow", "healthy"], "clients": [c(40, 5, 35), c(25, 4, 35, 10)], "stopAfterMs": 30}, fin]},
+        {"id": "singleton-datadog", "singleton": True, "datadog": True, "keys": 2, "memWindow": 0, "gens": [{"upstream": ["resetAfter1", "noAck", "healthy"], "clients": [c(30, 5, 35)], "stopAfterMs": 30}, fin]},
         {"id": "stop-mid-retry", "keys": 2, "memWindow": 0, "gens": [{"upstream": ["closeNow"] * 30, "clients": [c(20, 5, 35)], "stopAfterMs": 0}, {"upstream": ["noAck"], "clients": [c(20, 5, 35)], "stopAfterMs": 0}, fin]},
     ]
 
@@ -78,6 +82,8 @@ def random_script(sid, rnd, reload_kinds=()):
         sc["chunkRecords"] = rnd.choice([1, 2, 5, 5])
     if rnd.random() < 0.3:
         sc["maxDurationMs"] = 60000
+    if not reload_kinds and rnd.random() < 0.12:
+        sc["singleton"] = True
     if not reload_kinds and rnd.random() < 0.15:
         sc["datadog"] = True
     elif not reload_kinds and rnd.random() < 0.2:
